@@ -254,8 +254,13 @@ void MEDDLY::inter_mt::_compute(int L, unsigned in,
         }
     }
 
-    if ((A == B) && (arg1F==arg2F)) {
-        // A and A = A
+    if ( ((A == B) && (arg1F==arg2F))
+         || (arg1F->isTerminalNode(A) && arg2F->isTerminalNode(B)) )
+    {
+        // A and A = A.
+        // Two TRUE terminals above level 0 that got past the checks above
+        // both come from identity-reduced forests (possibly distinct ones),
+        // so both are the same identity pattern.
         edge_value dummy;
         dummy.set();
         MEDDLY_DCASSERT(copy_arg1res);
